@@ -58,3 +58,14 @@ package graph
 //@   site call HasV1ChannelEdge: assert arg(2) == policy.ChannelID
 //@   site call Before nth 0: assert arg(0) == retn(HasV1ChannelEdge, 0) && arg(1) == policy.LastUpdate
 //@   site call Before nth 1: assert arg(0) == retn(HasV1ChannelEdge, 1) && arg(1) == policy.LastUpdate
+//@
+//@ // ---- a channel update taken from an onion failure goes through the same authentication as gossip: signed by the
+//@ // ---- node that owns the direction named by its flags
+//@ func (b *Builder) ApplyChannelUpdate
+//@   props C20
+//@   loop * havoc
+//@   site call ValidateChannelUpdateAnn: assert arg(0) == pubKey && arg(1) == ch.Capacity && arg(2) == msg && pubKey != nil
+//@   site call NodeKey1: assert (msg.ChannelFlags & 1) == 0
+//@   site call NodeKey2: assert (msg.ChannelFlags & 1) == 1
+//@   site call UpdateEdge: assert ret(ValidateChannelUpdateAnn) == nil
+//@   ensures result ==> called(ValidateChannelUpdateAnn) && called(UpdateEdge)
